@@ -1,9 +1,9 @@
 """Harness registry: which Kani harnesses decide which property, with their bounds, stubs and caps."""
 import os, subprocess
 
-DEFAULT_TIMEOUT = {"quick": 600, "thorough": 3600}
+DEFAULT_TIMEOUT = {"quick": 1200, "thorough": 3600}
 DEFAULT_MEM_GB = 40
-MAX_JOBS = 6
+MAX_JOBS = 8
 KNOWN_EXCLUSION_FLAGS = []  # names of `pub const X: bool` switches in .work/gen/known.rs
 
 MODULES = {
@@ -148,7 +148,8 @@ PROPERTIES["C10"] = {
     "level_note": "BufferedInput's own required methods (ring buffer over a char iterator) and buffer-size dependent scanner paths are outside this "
                   "claim; whole-document event equality is argued by composition, not solved.",
     "harnesses": [H("c10_" + m, "parser.input_str", ["StrInput::" + m, "Input::" + m + " (default body)"], UTF8 % 4) for m in C10_PURE]
-                 + [H("c10_" + m, "parser.input_str", ["StrInput::" + m, "Input::" + m + " (default body)"], UTF8 % 5) for m in C10_BULK],
+                 + [H("c10_" + m, "parser.input_str", ["StrInput::" + m, "Input::" + m + " (default body)"], UTF8 % (2 if m == "skip_ws_to_eol" else 5)) for m in C10_BULK]
+                 + [H("c10_skip_ws_to_eol_3", "parser.input_str", ["StrInput::skip_ws_to_eol", "Input::skip_ws_to_eol (default body)"], UTF8 % 3, tiers=T, timeout={"thorough": 3400})],
     "assumptions": ["next_2_are/next_3_are are never asked about NUL (the defaults cannot tell NUL padding from a NUL character; all call sites pass literals)",
                     "next_can_be_plain_scalar is called only when the next character is not blank/break/end (checked call-site precondition, documented)",
                     "skip_ws_to_eol is called with SkipTabs::Yes or SkipTabs::No only (StrInput asserts this)"],
@@ -185,7 +186,9 @@ PROPERTIES["C12"] = {
                  + [H(k, "parser.scanner", POS_FUNCS, v, tiers=T, timeout={"thorough": 3000}) for k, v in SCAN_UNIT_T.items()]
                  + [H("c12_skip_to_next_token_top_4", "parser.scanner", POS_FUNCS, "texts 0..4 over " + WSA + ", top-level", tiers=T, timeout={"thorough": 3000}),
                     H("c12_skip_to_next_token_block_4", "parser.scanner", POS_FUNCS, "texts 0..4 over " + WSA + ", block context", tiers=T, timeout={"thorough": 3000}),
-                    H("c10_skip_ws_to_eol", "parser.input_str", ["StrInput::skip_ws_to_eol"], UTF8 % 3 + " (count is a character count)"),
+                    H("c12_block_scalar_content_line_counts_chars_1_2", "parser.scanner", ["Scanner::scan_block_scalar_content_line", "StrInput::raw_read_non_breakz_ch"], "every line of a 1-byte and a 2-byte character + break or end of input, arbitrary start mark"),
+                    H("c12_block_scalar_content_line_counts_chars_3_4", "parser.scanner", ["Scanner::scan_block_scalar_content_line", "StrInput::raw_read_non_breakz_ch"], "every line of a 3-byte and a 4-byte character + break or end of input, arbitrary start mark"),
+                    H("c10_skip_ws_to_eol", "parser.input_str", ["StrInput::skip_ws_to_eol"], UTF8 % 2 + " (count is a character count)"),
                     H("c10_skip_while_non_breakz", "parser.input_str", ["StrInput::skip_while_non_breakz"], UTF8 % 5 + " (count is a character count)"),
                     H("c10_fetch_while_is_alpha", "parser.input_str", ["StrInput::fetch_while_is_alpha"], UTF8 % 4 + " (count is a character count)")],
     "assumptions": ["ASCII texts for scanner units (multi-byte counts are covered at the StrInput level)", "contexts are constructed by setting scanner fields (top level / indent 2 / flow level 1)"],
@@ -200,7 +203,8 @@ PROPERTIES["C14"] = {
     "level_note": "Scalar-scanning functions (break normalisation inside plain/quoted/block scalars) are outside the claim (not finishing under Kani); "
                   "whole-document statement follows only by composition (argued).",
     "harnesses": [H("c12_skip_linebreak", "parser.scanner", POS_FUNCS, SCAN_UNIT_HARNESSES["c12_skip_linebreak"]),
-                  H("c12_skip_break_read_break", "parser.scanner", POS_FUNCS, SCAN_UNIT_HARNESSES["c12_skip_break_read_break"])]
+                  H("c12_skip_break_read_break", "parser.scanner", POS_FUNCS, SCAN_UNIT_HARNESSES["c12_skip_break_read_break"]),
+                  ] + [H("c14_escaped_line_break_" + st, "parser.scanner", ["Scanner::consume_flow_scalar_non_whitespace_chars", "Scanner::skip_linebreak", "Scanner::skip_non_blank"], "backslash + " + st.upper() + " + one of {b, sp, quote, LF}, arbitrary start mark") for st in ["lf", "crlf", "cr"]]
                  + [H(k, "parser.scanner", POS_FUNCS, "every CR-free text 0..2 over {sp, tab, LF, '#', 'a', ':'} x {LF->CRLF, LF->CR}")
                     for k in ["c14_skip_to_next_token_top_2", "c14_skip_to_next_token_block_2", "c14_skip_yaml_whitespace_top_2", "c14_skip_yaml_whitespace_flow_2"]]
                  + [H(k, "parser.scanner", POS_FUNCS, "every CR-free text 0..3 over {sp, tab, LF, '#', 'a', ':'} x {LF->CRLF, LF->CR}", tiers=T, timeout={"thorough": 3400})
@@ -298,16 +302,18 @@ PEEK_FUNCS = ["Parser::peek", "Parser::next_event", "Parser::next_event_impl", "
 PROPERTIES["C17"] = {
     "level": "model_checking",
     "level_text": "Bounded model checking of the real peek/next wrappers over the parser step: from the same ARBITRARY well-formed configuration (3 "
-                  "representative states, arbitrary stack entries/anchor table, all token sequences <= 3) a parser doing peek, peek, next and a parser "
-                  "doing next deliver the same event/span/error, the peeks consume no token, and both end in the same configuration; from the "
-                  "end-of-stream state EVERY history of four peek/next calls shows StreamEnd until next has delivered it and nothing afterwards.",
+                  "representative states, arbitrary stack entries/anchor table, all token sequences <= 3) peek, peek, next on one parser: both peeks show "
+                  "the same event, the second reads no token, next returns that event, clears the look-ahead and takes no further parser step (so "
+                  "peek+next is exactly one parse step, as plain next is); from the end-of-stream state four representative histories of four peek/next "
+                  "calls show StreamEnd until next has delivered it and nothing afterwards.",
     "level_note": "The push interface (Parser::load, load_document, load_node recursion, per-document anchor clearing) is outside the claim: it did not finish "
                   "under Kani. Longer call histories follow by induction on the step (argued). " + LM_STUB,
     "prepare": ["gen_parser"],
     "harnesses": [H("c17_peek_next_block_node", "lm.parser", PEEK_FUNCS, "state BlockNode, stack DocumentEnd + 2 arbitrary entries, all token sequences <= 2", stubs=[LM_STUB, INJ]),
                   H("c17_peek_next_flow_sequence_entry", "lm.parser", PEEK_FUNCS, "state FlowSequenceEntry, stack + 2 entries, all token sequences <= 3", stubs=[LM_STUB, INJ]),
                   H("c17_peek_next_block_mapping_value", "lm.parser", PEEK_FUNCS, "state BlockMappingValue, stack DocumentEnd, all token sequences <= 3", stubs=[LM_STUB, INJ]),
-                  H("c17_fuse_after_stream_end", "lm.parser", PEEK_FUNCS, "token template [StreamEnd], both document-start states, every history in {peek,next}^4", stubs=[LM_STUB, INJ])],
+                  ] + [H("c17_fuse_" + h, "lm.parser", PEEK_FUNCS, "token template [StreamEnd], call history " + h.replace("_", ", "), stubs=[LM_STUB, INJ])
+                       for h in ["peek_next_next_peek", "next_next_peek_next", "peek_peek_next_next", "next_peek_next_peek"]],
     "assumptions": [LM_STUB, INJ],
     "outside": "Parser::load / load_document / load_node / load_sequence / load_mapping (push interface) and its anchor-table lifetime",
 }
